@@ -24,7 +24,15 @@ type Case struct {
 	A XY         `json:"a"`
 	B XY         `json:"b"`
 	C XY         `json:"c"`
-	V [3]float32 `json:"v"` // colour for linearity
+	L [3]float32 `json:"lum"` // luminance Y of the three whites (0 means 1)
+	V [3]float32 `json:"v"`   // colour for linearity
+}
+
+func (c Case) lum(i int) float32 {
+	if c.L[i] == 0 {
+		return 1
+	}
+	return c.L[i]
 }
 
 var table = map[string]XY{
@@ -44,7 +52,11 @@ func toRef(m matrix.Matrix3) ref.M3 {
 }
 
 // exact float64 XYZ (Y=1) of a float32 chromaticity
-func xyzExact(w XY) ref.V3 { return ref.XYZOf(ref.XY{X: float64(w[0]), Y: float64(w[1])}, 1) }
+func xyzExact(w XY) ref.V3 { return xyzExactL(w, 1) }
+
+func xyzExactL(w XY, l float32) ref.V3 {
+	return ref.XYZOf(ref.XY{X: float64(w[0]), Y: float64(w[1])}, float64(l))
+}
 
 func f32(v ref.V3) ciexyz.Color { return ciexyz.Color{X: float32(v[0]), Y: float32(v[1]), Z: float32(v[2])} }
 func f64(c ciexyz.Color) ref.V3 { return ref.V3{float64(c.X), float64(c.Y), float64(c.Z)} }
@@ -87,6 +99,8 @@ func maxAbsDiff(a, b ref.M3) (d float64, i, j int) {
 
 func xyY(w XY) ciexyy.Color { return ciexyy.Color{X: w[0], Y: w[1], YY: 1} }
 
+func xyYL(w XY, l float32) ciexyy.Color { return ciexyy.Color{X: w[0], Y: w[1], YY: l} }
+
 func check(c Case) (kind, what string) {
 	var kindOut, whatOut string
 	pn, msg := ev.Guard(func() { kindOut, whatOut = checkInner(c) })
@@ -98,7 +112,7 @@ func check(c Case) (kind, what string) {
 
 func checkInner(c Case) (kind, what string) {
 	// float32 whites supplied by the harness (float64 conversion, rounded)
-	A32, B32, C32 := f32(xyzExact(c.A)), f32(xyzExact(c.B)), f32(xyzExact(c.C))
+	A32, B32, C32 := f32(xyzExactL(c.A, c.lum(0))), f32(xyzExactL(c.B, c.lum(1))), f32(xyzExactL(c.C, c.lum(2)))
 	A, B, Cw := f64(A32), f64(B32), f64(C32)
 	cAB := condOf(A) + condOf(B)
 	ab := toRef(matrix.Matrix3(ciexyz.AdaptBetweenXYZWhitePoints(A32, B32)))
@@ -153,17 +167,28 @@ func checkInner(c Case) (kind, what string) {
 		return "compose", fmt.Sprintf("(B->C)(A->B) differs from A->C at [%d][%d] by %.3g for A=%v B=%v C=%v", i, j, d, c.A, c.B, c.C)
 	}
 	// (vi) xyY constructor
-	xy := toRef(matrix.Matrix3(ciexyz.AdaptBetweenXYYWhitePoints(xyY(c.A), xyY(c.B))))
-	viaLib := toRef(matrix.Matrix3(ciexyz.AdaptBetweenXYZWhitePoints(ciexyz.ColorFromXYY(xyY(c.A)), ciexyz.ColorFromXYY(xyY(c.B)))))
+	xy := toRef(matrix.Matrix3(ciexyz.AdaptBetweenXYYWhitePoints(xyYL(c.A, c.lum(0)), xyYL(c.B, c.lum(1)))))
+	viaLib := toRef(matrix.Matrix3(ciexyz.AdaptBetweenXYZWhitePoints(ciexyz.ColorFromXYY(xyYL(c.A, c.lum(0))), ciexyz.ColorFromXYY(xyYL(c.B, c.lum(1))))))
 	if d, i, j := maxAbsDiff(xy, viaLib); !(d <= 1e-12*(1+viaLib.NormInf())) {
 		return "xyy-vs-xyz", fmt.Sprintf("xyY constructor and XYZ constructor (fed ColorFromXYY) differ at [%d][%d] by %.3g for A=%v B=%v", i, j, d, c.A, c.B)
 	}
+	// the xyY-constructed adaptation maps the source white onto the destination white
+	adXY := ciexyz.AdaptBetweenXYYWhitePoints(xyYL(c.A, c.lum(0)), xyYL(c.B, c.lum(1)))
+	gotW := f64(adXY.Apply(ciexyz.ColorFromXYY(xyYL(c.A, c.lum(0)))))
+	wantW := f64(ciexyz.ColorFromXYY(xyYL(c.B, c.lum(1))))
+	for i := 0; i < 3; i++ {
+		if !(math.Abs(gotW[i]-wantW[i]) <= 1e-6*math.Max(1, math.Abs(wantW[i]))) {
+			return "xyy-white", fmt.Sprintf("xyY adaptation %v(Y=%g)->%v(Y=%g) maps the source white to %v, destination white is %v", c.A, c.lum(0), c.B, c.lum(1), gotW, wantW)
+		}
+	}
 	// against the reference at the exact whites, with a finite-difference forward error bound for the
 	// library's float32 xyY->XYZ conversion
-	Ae, Be := xyzExact(c.A), xyzExact(c.B)
+	Ae, Be := xyzExactL(c.A, c.lum(0)), xyzExactL(c.B, c.lum(1))
 	exact := ref.Bradford(Ae, Be)
 	const u = 1.0 / (1 << 24)
-	delta := func(w ref.V3, y float64) ref.V3 { return ref.V3{4 * u * math.Abs(w[0]), 0, 4*u*math.Abs(w[2]) + 3*u/y} }
+	delta := func(w ref.V3, y float64) ref.V3 {
+		return ref.V3{4 * u * math.Abs(w[0]), 0, 4*u*math.Abs(w[2]) + 3*u*math.Abs(w[1])/y}
+	}
 	dA, dB := delta(Ae, float64(c.A[1])), delta(Be, float64(c.B[1]))
 	var tol ref.M3
 	for k := 0; k < 3; k++ {
@@ -235,7 +260,7 @@ func TestC12(t *testing.T) {
 		fmt.Println("REPLAY case passed:", c)
 		return
 	}
-	ev.Rule("white points: the 11 CIE standard illuminants (all ordered pairs and triples), daylight/Planckian locus points for generated CCT in [2000,25000] K with a small offset, and a chromaticity grid over [0.2,0.5]^2 (16x16 sub-grid squared in quick, 64x64 squared in thorough) restricted to whites whose three Bradford cone responses are >= 0.1*Y; colours: rapid float32 XYZ in [-0.5,2]^3. non-trivial = distinct case with A != B (and three distinct whites for the composition law)")
+	ev.Rule("white points (chromaticity x luminance Y; Y = 1 and, for a fifth of the grid and half of the rapid cases, Y in [0.2,2], including pairs of equal chromaticity and different luminance): the 11 CIE standard illuminants (all ordered pairs and triples), daylight/Planckian locus points for generated CCT in [2000,25000] K with a small offset, and a chromaticity grid over [0.2,0.5]^2 (16x16 sub-grid squared in quick, 64x64 squared in thorough) restricted to whites whose three Bradford cone responses are >= 0.1*Y; colours: rapid float32 XYZ in [-0.5,2]^3. non-trivial = distinct case with A != B (and three distinct whites for the composition law)")
 	ev.Assume("internal/ref Bradford matrix transcribed from the literature; whites with a cone response < 0.1*Y are not physically valid and excluded (count reported)")
 	names := []string{"A", "B", "C", "D50", "D55", "D65", "D75", "E", "F2", "F7", "F11"}
 	bad := false
@@ -255,7 +280,12 @@ func TestC12(t *testing.T) {
 	for _, a := range names {
 		for _, b := range names {
 			for _, cc := range names {
-				run(Case{table[a], table[b], table[cc], [3]float32{0.3, 0.7, -0.2}}, "table")
+				run(Case{A: table[a], B: table[b], C: table[cc], V: [3]float32{0.3, 0.7, -0.2}}, "table")
+				if cc == "D65" {
+					// same and different chromaticities at different luminances
+					run(Case{A: table[a], B: table[b], C: table[a], L: [3]float32{1, 0.8, 2}, V: [3]float32{0.3, 0.7, -0.2}}, "table-lum")
+					run(Case{A: table[a], B: table[a], C: table[b], L: [3]float32{0.5, 1.25, 1}, V: [3]float32{0.1, 0.2, 0.9}}, "table-lum")
+				}
 			}
 		}
 	}
@@ -292,7 +322,10 @@ func TestC12(t *testing.T) {
 			defer wg.Done()
 			defer func() { <-sem }()
 			for bi := range grid {
-				c := Case{grid[ai], grid[bi], grid[(ai*31+bi*17+7)%len(grid)], [3]float32{float32(ai%7) * 0.3, 0.5, float32(bi%5)*0.4 - 0.5}}
+				c := Case{A: grid[ai], B: grid[bi], C: grid[(ai*31+bi*17+7)%len(grid)], V: [3]float32{float32(ai%7) * 0.3, 0.5, float32(bi%5)*0.4 - 0.5}}
+				if (ai+bi)%5 == 0 {
+					c.L = [3]float32{0.25 + float32(ai%8)/4, 0.25 + float32(bi%8)/4, 1}
+				}
 				if k, w := check(c); k != "" {
 					mu.Lock()
 					if firstBad == nil {
@@ -328,6 +361,17 @@ func TestC12(t *testing.T) {
 			return genWhite(rt, l)
 		}
 		c := Case{A: gw("a"), B: gw("b"), C: gw("c")}
+		if rapid.Bool().Draw(rt, "luminances") {
+			for i := range c.L {
+				c.L[i] = rapid.Float32Range(0.2, 2).Draw(rt, "lum")
+			}
+		}
+		switch rapid.IntRange(0, 5).Draw(rt, "samechroma") {
+		case 0:
+			c.B = c.A // same chromaticity, (possibly) different luminance
+		case 1:
+			c.C = c.B
+		}
 		for i := range c.V {
 			c.V[i] = rapid.Float32Range(-0.5, 2).Draw(rt, "v")
 		}
@@ -336,7 +380,7 @@ func TestC12(t *testing.T) {
 			rt.Skip("invalid white")
 		}
 		ev.Eval(1)
-		if c.A != c.B && c.B != c.C && c.A != c.C {
+		if (c.A != c.B || c.lum(0) != c.lum(1)) && (c.B != c.C || c.lum(1) != c.lum(2)) {
 			ev.NT(ev.Hash("rapid", c))
 		}
 		if ev.SampleN() < 5 {
